@@ -391,3 +391,44 @@ PROPS["C01"]["assumptions"] = [
     "the DTO conversions, the generated message code and MessageBufReader are evaluated from source",
     "one tree name, 1-byte keys and values (symbolic), header fields in 1..=127, member / address lists empty; 0 or 2 (thorough: 0..=3) records left by an earlier build of the same id",
 ]
+
+
+def _c02_smt(tier, seed):
+    from rs2smt import c03
+    return c03.run(tier, seed, which="C02")
+
+
+def _c03_smt(tier, seed):
+    from rs2smt import c03
+    return c03.run(tier, seed, which="C03")
+
+
+def _c04(tier, seed):
+    from rs2smt import c03
+    return c03.run(tier, seed, which="C04")
+
+
+_LOG_S_ASSUME = [
+    "file-level scenarios are evaluated from the source of LogInnerManager, the LogRecord message code, MessageBufReader, FileMessageReader and the varint trio over the environment "
+    "models of rs2smt/iomodel.py (in-memory tokio::fs with POSIX regular-file semantics, quick_protobuf primitives, Cursor + binrw big-endian header)",
+    "the index interval is read from the file header: the scenario patches it to 2 in a freshly initialised file (any value >= 1 is a valid file), so index boundaries occur within 3-4 records",
+    "payload lengths 1-2; payload bytes symbolic in {1,2,3} in the append scenario, concrete and pairwise different in the truncation / crash scenarios",
+]
+PROPS["C02"]["smt"] = _c02_smt
+PROPS["C02"]["assumptions"] = PROPS["C02"]["assumptions"] + _LOG_S_ASSUME
+PROPS["C02"]["outside"] = "multi-actor RaftLogManager / FileStore message flow (rollover, split-off, compaction pointers); records larger than the 1024-byte scan buffer"
+PROPS["C03"]["smt"] = _c03_smt
+PROPS["C03"]["assumptions"] = PROPS["C03"]["assumptions"] + _LOG_S_ASSUME
+PROPS["C04"] = {
+    "level": "model_checking",
+    "files": [RL, "src/common/protobuf_utils.rs"],
+    "smt": _c04,
+    "trusted_base": PROPS["C05"]["trusted_base"][:1] + ["z3 5.1.0"],
+    "assumptions": _LOG_S_ASSUME + [
+        "crash model of the property: process death with the OS surviving, every write / set_len call atomic and applied in program order; flush is a no-op",
+        "one log file: after a crash behind any prefix of its file mutations the log reopens and shows the state of the last acknowledged operation or of the operation in flight",
+    ],
+    "outside": "the index (catalogue) file and snapshot files, and every order between different actors' files (catalogue update vs. new log file, snapshot completion): those sequences "
+               "exist only as actor message schedules",
+    "explanation": "bounded symbolic execution of the log file code with a symbolic crash point over the journal of file mutations",
+}
